@@ -13,6 +13,12 @@ def encodeSniffLen : Option Nat := some 512
 /-- encode.go `responseWriter.init`: the edits `hdr.Del/Set/Add(<field>, …)` in source order -/
 def encodeInitHeaderEdits : List String := ["Del Content-Length", "Set Content-Encoding", "Add Vary", "Del Accept-Ranges", "Set Etag"]
 
+/-- encode.go `responseWriter.init`: calls on the pooled encoder `rw.w` and on `writerPools`, in source order -/
+def encodeEncoderLifecycleInit : List String := ["Get", "Reset(w)"]
+
+/-- encode.go `responseWriter.Close`: the same for `Close` -/
+def encodeEncoderLifecycleClose : List String := ["Close", "Reset(nil)", "Put"]
+
 /-- encode/caddyfile.go `UnmarshalCaddyfile`: the formats used when the directive names none -/
 def encodeCaddyfileDefaultFormats : List String := ["zstd", "gzip"]
 
